@@ -362,6 +362,8 @@ def specs(tier):
                 seen.add(repr(nb))
                 try:
                     formgen.build(nb, vform=m).finalize()
+                    if not formgen.is_multilinear(nb, vform=m):
+                        continue          # e.g. u*u: not a bilinear form, outside the property
                 except Exception:
                     continue
                 out.append(nb)
